@@ -24,7 +24,7 @@ ASSUMPTIONS = [
 
 
 def bounds(tier):
-    return {"expressions": "quick: representative leaves, their Invert, depth-1 trees; thorough: all leaves, depth<=2",
+    return {"expressions": "quick: representative leaves, their Invert, depth-1 trees; thorough: all leaf configurations (both orientations), one per (kind, option, child class) at depth 1-2",
             "bases": ["StandardNormal", "StudentT(df=3) (leaves)"], "levels": [0, 1] if tier == "quick" else [0, 1, 2],
             "dtypes": ["float64", "float32 (leaves, Invert(leaf), factories)"], "factories": "8 configs x invert x cond",
             "spline_intervals": "symmetric, asymmetric, not containing 0 (both signs)", "exhaustive_within_bounds": True}
@@ -52,6 +52,8 @@ def enumerate_cases(tier, seed):
     maxd = 1 if tier == "quick" else 2
     leaves = g.dedupe([s for s in specs if "c" not in s] + EXTRA_LEAVES)
     comps = [s for s in specs if 0 < g.info(s).depth <= maxd]
+    if tier != "quick":
+        comps = g._one_per_kind(comps)
     if tier == "quick":
         # NaN-in-the-unselected-branch defects live in the leaves that branch on values: every composition containing one
         # of them is kept, of the purely smooth compositions two per (combinator, option)
